@@ -118,6 +118,44 @@ def reachable_files(wd):
     return out
 
 
+def initial_fault_script(cfg, mode, rel, shape, rng):
+    """The file is already damaged when the rules directory is set for the first time (or the directory itself is wrong);
+    recovery is by repairing and re-pointing."""
+    ops = [{"op": "fs_clone_rules"}, {"op": "fs_mtime_all", "path": "$RULES", "secs": T0}, {"op": "events_on"}]
+    tags = [None] * 3
+    if rel == "<wrongdir>":
+        bad = {"deleted": "/nonexistent/rules/dir", "empty": "/verif/work/home", "scalar": "$RULES/prefs.yaml"}.get(shape, "$RULES/Languages")
+        ops.append({"op": "set_rules_dir", "dir": bad})
+        tags.append(("fault", "set_rules_dir"))
+        orig = None
+    else:
+        orig = open(os.path.join(C.REPO, "Rules", rel), encoding="utf-8").read()
+        newc = damaged_content(rel, orig, shape, rng)
+        path = "$RULES/" + rel
+        ops.append({"op": "fs_delete", "path": path} if newc is None else {"op": "fs_write", "path": path, "content": newc})
+        tags.append(None)
+        ops.append({"op": "set_rules_dir", "dir": "$RULES"})
+        tags.append(("fault", "set_rules_dir"))
+    ops.append({"op": "drain"})
+    tags.append(None)
+    for k, v in [("CheckRuleFiles", mode)] + list(cfg.items()):
+        ops.append({"op": "set_pref", "name": k, "value": v})
+        tags.append(None)
+    calls(ops, tags, "fault")
+    calls(ops, tags, "fault")
+    if orig is not None:
+        ops.append({"op": "fs_write", "path": "$RULES/" + rel, "content": orig})
+        ops.append({"op": "fs_mtime", "path": "$RULES/" + rel, "secs": T0 + 200})
+        tags += [None, None]
+    ops.append({"op": "set_rules_dir", "dir": "$RULES"})
+    tags.append(("post", "set_rules_dir"))
+    for k, v in [("CheckRuleFiles", mode)] + list(cfg.items()):
+        ops.append({"op": "set_pref", "name": k, "value": v})
+        tags.append(("post", "set_pref:" + k))
+    calls(ops, tags, "post")
+    return {"ops": ops, "tags": tags, "cfg": cfg, "mode": mode, "rel": rel if orig is not None else "", "shape": shape, "warm": False, "initial": True}
+
+
 def fault_script(cfg, mode, rel, shape, warm, rng):
     orig = open(os.path.join(C.REPO, "Rules", rel), encoding="utf-8").read()
     new = damaged_content(rel, orig, shape, rng)
@@ -198,6 +236,15 @@ def run(tier):
         s = fault_script(CONFIGS[ci], mode, rel, shape, warm, random.Random(C.seed() * 7 + k))
         s["id"] = f"fault:{ci}:{rel}:{shape}:{mode}:{'warm' if warm else 'cold'}"
         scripts.append(s)
+    # faults present when the rules directory is set for the first time, and wrong rules directories
+    init_cases = [(ci, rel, shape, mode) for ci in range(len(CONFIGS)) for rel in ("prefs.yaml", "definitions.yaml", "intent.yaml", "<wrongdir>")
+                  for shape in (SHAPES if rel != "<wrongdir>" else ["deleted", "empty", "scalar", "wrongtype"]) for mode in ("All", "Prefs")]
+    if tier == "quick":
+        init_cases = [c for c in init_cases if c[0] == 0 and c[3] == "Prefs" and c[2] in ("deleted", "empty", "truncated", "scalar")]
+    for k, (ci, rel, shape, mode) in enumerate(init_cases):
+        s = initial_fault_script(CONFIGS[ci], mode, rel, shape, random.Random(C.seed() * 3 + k))
+        s["id"] = f"initial:{ci}:{rel}:{shape}:{mode}"
+        scripts.append(s)
     results = C.run_mcv([{"id": s["id"], "ops": s["ops"]} for s in scripts], wd, timeout_ms=60000, threads=12)
     events, back, memo = [], [], []
     for si, (s, r) in enumerate(zip(scripts, results)):
@@ -216,7 +263,7 @@ def run(tier):
             read_damaged = 1 if (damaged and (damaged in reads)) else 0
             events.append({"call": call, "res": rr["r"], "phase": phase, "readDamaged": read_damaged, "namesFile": names, "shape": s["shape"]})
             back.append((si, oi))
-            if phase in ("pre", "post", "ref") and call != "set_rules_dir":
+            if phase in ("pre", "post", "ref") and call != "set_rules_dir" and not call.startswith("set_pref:"):
                 key = S.fp(json.dumps(s["cfg"], sort_keys=True), call)
                 memo.append((key, S.fp(rr["r"], S.norm_out(rr["v"]) if rr["r"] == "ok" else ""), si, oi, phase))
     rejects, _, _ = C.validate_trace("Trace_Faults", "Trace_Faults.cfg", events, wd, name="faults", timeout=1200)
@@ -228,7 +275,7 @@ def run(tier):
 
     def describe(si):
         s = scripts[si]
-        return f"file {s['rel']} shape {s['shape']} CheckRuleFiles={s['mode']} {'warm' if s['warm'] else 'cold'} config {s['cfg']['Language']}/{s['cfg']['BrailleCode']}"
+        return f"file {s['rel'] or '<rules dir>'} shape {s['shape']} CheckRuleFiles={s['mode']} {'initial' if s.get('initial') else 'warm' if s['warm'] else 'cold'} config {s['cfg']['Language']}/{s['cfg']['BrailleCode']}"
     for idx, reason in rejects:
         si, oi = back[idx - 1]
         s = scripts[si]
